@@ -17,6 +17,7 @@ type PropConfig struct {
 	ID         string   `json:"id"`
 	SweepFiles []string `json:"sweep_files"` // zero-annotation safety sweep: every function in these files
 	SweepKinds []string `json:"sweep_kinds"` // obligation kinds the sweep contributes (empty = all safety kinds)
+	SharedSweepFiles []string `json:"shared_state_sweep_files"` // files whose functions are checked for unprotected package-level state only
 	Alloc      bool     `json:"alloc"`       // emit allocation-bound obligations in sweep files
 	Level      string   `json:"level"`
 	Bounded    []string `json:"bounded_standins"`
@@ -178,6 +179,11 @@ func (p *Program) selectFunctions(prop string, pc *PropConfig) (ids []string, sw
 					sweep[id] = true
 				}
 			}
+			for _, sf := range pc.SharedSweepFiles {
+				if f == sf {
+					set[id] = true
+				}
+			}
 		}
 	}
 	// closures are verified where they run: inlined into the enclosing function or at the call site that
@@ -238,6 +244,13 @@ func obligationServes(p *Program, prop string, pc *PropConfig, r *FuncResult, o 
 			return prop == "C07" || prop == "C13"
 		}
 		return true
+	}
+	if pc != nil && o.Kind == "lock.held" && (strings.Contains(o.ID, "#lock.unclassified@") || strings.Contains(o.ID, "#lock.shared@")) {
+		for _, sf := range pc.SharedSweepFiles {
+			if p.FuncFile[r.ID] == sf {
+				return true
+			}
+		}
 	}
 	if sweep[r.ID] && safetyKinds[o.Kind] {
 		if pc != nil && len(pc.SweepKinds) > 0 {
